@@ -130,14 +130,25 @@ def gen_unit(ctx, n_random, gen=False):
         cases.append(finib_case([0, 16], [("s", 0, 1), ("s", 16, 2), ("b", 0), ("b", 0), ("b", 1023)]))
         for k in BOUNDARY:
             cases.append(finib_case("all", [("s", k, 100 + k), ("s", k ^ 1, 200 + k), ("b", k)]))
+            # the index is deleted and created again, then the SAME / another value is stored under the new key
+            P = r.rng(1, 1 << 40)
+            cases.append(finib_case("all", [("s", k, P), ("b", k), ("s", k, P)]))
+            cases.append(finib_case([k], [("s", k, P), ("b", k), ("b", k), ("s", k, P), ("s", k ^ 16, P)]))
+            cases.append(finib_case([k], [("s", k, P), ("b", k), ("s", k, P + 1)]))
+            cases.append(finib_case("all", [("s", k, 0), ("b", k), ("s", k, 0), ("s", (k + 1) % NK, P), ("b", (k + 1) % NK),
+                                            ("s", (k + 1) % NK, P), ("b", (k + 1) % NK)]))
+        for k in range(0, NK, 37):
+            P = r.rng(1, 1 << 40)
+            cases.append(finib_case("all", [("s", k, P), ("b", k), ("s", k, P)]))
         for _ in range(n_random // 3):
             keys = [r.below(NK) for _ in range(r.rng(1, 8))] + [r.choice(BOUNDARY)]
+            vals = [val(r) for _ in range(r.rng(1, 3))]      # few distinct values: the same one is stored again and again
             ops = []
             for _ in range(r.choice([2, 5, 15, 60])):
                 if r.chance(1, 4):
                     ops.append(("b", r.choice(keys) if r.chance(4, 5) else r.choice(OOR)))
                 else:
-                    ops.append(("s", r.choice(keys), val(r)))
+                    ops.append(("s", r.choice(keys), r.choice(vals) if r.chance(3, 4) else val(r)))
             dt = r.choice(["all", sorted(set(k for k in keys if r.chance(1, 2)))])
             cases.append(finib_case(dt, ops))
     # every single key: with all destructors registered, and with only its own
@@ -253,6 +264,9 @@ def oracle_unit(case, out):
 
 # ---------------- whole library ----------------
 
+MAXT_LIB = 64
+
+
 def lib_case_text(W, has, threads):
     return "%d %d %s %d %s" % (W, len(has), " ".join(map(str, has)), len(threads),
                                "  ".join("%d %d %s" % (kind, len(s), " ".join("%d %d" % x for x in s)) for kind, s in threads))
@@ -273,6 +287,33 @@ def gen_lib(ctx, quick):
         has = [1] * NK if b == 0 else [1 if r.chance(2, 3) else 0 for _ in range(NK)]
         ths = [(i % 3, [(x, 100 + x), (y, 100 + y)] if i % 2 else [(y, 100 + y), (x, 100 + x)]) for i, (x, y) in enumerate(pairs[b:b + 46])]
         cases.append((r.choice([1, 3, 8]), has, ths))
+    # delete + re-create of a key inside the thread (the LIFO free list hands the index out again), then the
+    # same / another / no value is stored under the new key; all three termination kinds; threads one at a time
+    RC = lambda j, f=1: (-2 - j, f)
+    idxs = BOUNDARY + [r.below(NK) for _ in range(6)]
+    for rep_ in range(1 if quick else 4):
+        ths = []
+        has = [1 if r.chance(3, 4) else 0 for _ in range(NK)]
+        for n, k in enumerate(idxs):
+            P, Q = r.rng(1, 1 << 40), r.rng(1, 1 << 40)
+            kind = (n + rep_) % 3
+            pat = (n // 3 + rep_) % 5
+            if pat == 0:
+                sc = [(k, P), RC(k), (k, P)]                       # same pointer again (C11-r2-1)
+            elif pat == 1:
+                sc = [(k, P), RC(k), (k, Q)]
+            elif pat == 2:
+                sc = [(k, P), RC(k)]                               # nothing stored under the new key
+            elif pat == 3:
+                sc = [(k, P), RC(k, 0), (k, P), RC(k, 1), (k, P)]  # without, then with destructor
+            else:
+                sc = [(k, P), ((k + 1) % NK, Q), RC(k), RC(k), (k, P), ((k + 1) % NK, Q)]
+            ths.append((kind, sc))
+        # and the three kinds on the same pattern / index
+        for kind in range(3):
+            k = r.choice(BOUNDARY); P = r.rng(1, 1 << 40)
+            ths.append((kind, [(k, P), RC(k), (k, P)]))
+        cases.append((-r.choice([1, 2, 4]), has, ths[:MAXT_LIB]))
     # random subsets, mixed destructors, NULL values, threads that store nothing
     for _ in range(3 if quick else 40):
         nk = r.choice([1, 17, 300, NK])
@@ -295,7 +336,7 @@ def run_lib_case(libexe, drv, case, vline="variant 0 0"):
     if "done" not in lines:
         return "library run did not complete (exit %d): %s" % (rc, out[-200:]), len(ths), 0, 0, out
     keys = None
-    per = {}
+    per, rec = {}, {}
     for l in lines:
         w = l.split()
         if not w:
@@ -303,32 +344,53 @@ def run_lib_case(libexe, drv, case, vline="variant 0 0"):
         if w[0] == "keys":
             keys = [int(x) for x in w[1:]]
         elif w[0].startswith("T"):
-            per[int(w[0][1:])] = [(int(t.split(":")[0]), int(t.split(":")[1])) for t in w[3:]]
+            ci = w.index("calls")
+            per[int(w[0][1:])] = [(int(t.split(":")[0]), int(t.split(":")[1])) for t in w[ci + 1:]]
+            if "rec" in w[:ci]:
+                rec[int(w[0][1:])] = [(int(t.split(":")[0]), int(t.split(":")[1])) for t in w[w.index("rec") + 1:ci]]
         elif w[0] == "after" and len(w) > 1:
             return "destructor calls outside any terminating thread: " + l[:100], len(ths), 0, 0, out
     if keys is None or -1 in keys or len(set(keys)) != len(keys):
         return "key creation failed or returned duplicates", len(ths), 0, 0, out
-    key_of = keys                                    # creation number -> key index
-    tag_of = {k: j for j, k in enumerate(keys)}
-    dt = set(keys[j] for j in range(len(keys)) if has[j])
+    key_of = list(keys)                              # creation number (slot) -> current key index
+    hasd = list(has)
     ncalls = 0
-    model_cases = []
-    for i, (kind, s) in enumerate(ths):
-        sets = [(key_of[slot], v) for slot, v in s]
-        calls = [(key_of[tag] if 0 <= tag < len(keys) else "oob", v) for tag, v in per.get(i, [])]
+    model_cases, got_all, comparable = [], [], []
+    for i, (kind, sc) in enumerate(ths):
+        cur, ops, recs, lifo = {}, [], list(rec.get(i, [])), True
+        for slot, v in sc:
+            if slot <= -2:
+                j = -2 - slot
+                old = key_of[j]
+                if not recs or recs[0][0] != j or recs[0][1] < 0:
+                    return "thread %d: re-creation of the key of slot %d failed or was not reported" % (i, j), len(ths), ncalls, 0, out
+                new = recs.pop(0)[1]
+                if new in key_of and key_of.index(new) != j:
+                    return "thread %d: re-created key got index %d, which is a live key" % (i, new), len(ths), ncalls, 0, out
+                cur.pop(old, None)              # what was stored belongs to a deleted key
+                ops.append(("b", old))
+                if new != old:
+                    lifo = False; cur.pop(new, None)
+                key_of[j] = new; hasd[j] = 1 if v else 0
+            elif slot >= 0:
+                cur[key_of[slot]] = v; ops.append(("s", key_of[slot], v))
+        dt = set(key_of[j] for j in range(len(key_of)) if hasd[j] and key_of[j] >= 0)
+        calls = [(key_of[tag] if 0 <= tag < len(key_of) else "oob", v) for tag, v in per.get(i, [])]
         ncalls += len(calls)
-        msg = oracle_fini(dt, sets, calls)
+        msg = oracle_fini(dt, list(cur.items()), calls)
         if msg:
-            return "thread %d (termination kind %d: %s) - %s" % (i, kind, ["return", "myth_exit", "cancel"][kind], msg), len(ths), ncalls, 0, out
-        model_cases.append(fini_case(sorted(dt), sets))
+            hist = " ".join(("store(slot %d -> key %d, %d)" % (sl, 0, v)) if sl >= 0 else "delete+create(slot %d)" % (-2 - sl)
+                            for sl, v in sc[:8])
+            return "thread %d (termination kind %d: %s; history: %s) - %s" % (
+                i, kind, ["return", "myth_exit", "cancel"][kind], hist, msg), len(ths), ncalls, 0, out
+        model_cases.append(finib_case(sorted(dt), ops)); got_all.append(calls); comparable.append(lifo)
     model, _, _ = vlib.run_lines([drv], [vline] + model_cases)
     model = model[1:]
     dis = 0
-    for i, (kind, s) in enumerate(ths):
+    for i in range(len(ths)):
         p = parse_out(model[i]) if i < len(model) else None
         exp = p[0] if p else None
-        got = [(key_of[tag], v) for tag, v in per.get(i, [])]
-        if exp != got:
+        if comparable[i] and exp != got_all[i]:
             dis += 1
     return None, len(ths), ncalls, dis, out
 
